@@ -103,6 +103,9 @@ CheckExport(S, id, o) ==
                                THEN SeqSet(o.r.v.kinds) = {<<ExportKey(S, i, a.unique), S.knd[i]>> : i \in ExportMembers(S, a.start, a.self) \ {0}}
                                ELSE SameBag(o.r.v.edge_kinds, edges)),
                 id, "C17", "export.kind_labels:" \o a.fmt, why)
+         \* RDF: the index triples carry each child's position among its siblings
+         /\ Say(a.fmt # "rdf" \/ SeqSet(o.r.v.index) = {<<ExportKey(S, i, TRUE), Idx(S, i) - 1>> : i \in Desc(S, a.start)},
+                id, "C17", "export.rdf_index", why)
          \* every exported tree node's name is carried by its graph node
          /\ Say(\A i \in Desc(S, a.start) : <<Names(i), S.dat[i]>> \in SeqSet(o.r.v.names), id, "C17",
                 "export.names:" \o a.fmt, why))
